@@ -67,7 +67,7 @@ ALL_COUNTEREXAMPLES = [   # (theorem, case, expected oracle class, layout aspect
     ('C15_oldorder_counterexample_mispaired_reregistration', 'bsd C R:1:1 R:2:2 | 10:I', 'sethandler-window:mispaired:new-callback-old-data', 'reg'),
     ('C15_oldorder_counterexample_third_no_exit_ctor_window', 'bsd C W | 5:I 7:I 7:I', 'ctor-window:third-no-exit', 'ctor'),
     ('C15_oldorder_counterexample_early_exit_ctor_window', 'bsd C W | 5:I 5:I', 'ctor-window:early-exit', 'ctor'),
-    ('C15_counterexample_third_no_exit_across_teardown', 'bsd C W D W | 8:I 8:I 13:I', 'across-teardown:third-no-exit', 'dtor'),
+    ('C15_oldorder_counterexample_third_no_exit_across_teardown', 'bsd C W D W | 8:I 8:I 13:I', 'across-teardown:third-no-exit', 'dtor'),
 ]
 COUNTEREXAMPLES = [c[:3] for c in ALL_COUNTEREXAMPLES]
 
@@ -816,7 +816,7 @@ def coverage_report(res, label):
 
 
 N_THEOREMS = 43
-CURRENT_LAYOUT = 'fixed'     # = Layout.current in lean/MpVerif/C15/Model.lean (the order the main theorems are stated for)
+CURRENT_LAYOUT = 'fixed+dtor'     # = Layout.current in lean/MpVerif/C15/Model.lean (the order the main theorems are stated for)
 
 
 def check_hook_present():
@@ -875,7 +875,8 @@ def run(ck):
         'pinned': 'OLD store order (both repairs reverted): only C15_anyorder_* apply; ctor-window and SetHandler-window defects are back',
         'ctorfix': 'SetHandler repair missing: C15_pairing does not apply, SetHandler-window defect is back',
         'regfix': 'constructor repair missing: C15_no_lost / C15_no_early_exit / C15_third_exits_partial do not apply, ctor-window defect is back',
-        'fixed': 'main theorems C15_no_lost, C15_pairing, C15_no_early_exit (full) and C15_third_exits_partial apply; open finding: across teardown'}.get(layout, 'destructor repair present (no stop_ = 1): C15_order_third_exits_full applies; Layout.current must be updated')
+        'fixed': 'destructor repair missing (stop_ = 1 stored again): C15_third_exits does not apply, across-teardown defect is back',
+        'fixed+dtor': 'main theorems C15_no_lost, C15_pairing, C15_no_early_exit, C15_third_exits apply at full strength; no open finding'}.get(layout, 'not the current store order')
     cases, enum_desc = gen_cases(ck)
     lines = [l for _, l in cases]
     ck.log('%d cases (%s)' % (len(lines), ', '.join('%s=%d' % (o, sum(1 for x, _ in cases if x == o))
